@@ -293,6 +293,7 @@ def run(ctx):
     _run_rules(ctx)
     from .. import boundaries
     boundaries.check(ctx, 'C15.RB', 'C15')
+    boundaries.check_inits(ctx, 'C15.RI', 'C15')
     boundaries.check_codes(ctx, 'C15.RE', 'C15')
     boundaries.check_writes(ctx, 'C15.RW', 'C15')
     from . import C14
